@@ -54,7 +54,7 @@ rm -f "$LOG.suite"
 echo "== checks against the patched tree" >> "$LOG"
 verdicts=""
 for P in $ID $EXTRA; do
-  DM_REPO="$WT" DMV_WORK=/verif/.work-seed /verif/check "$P" > "$OUT/check-$P.out" 2>&1; rc=$?
+  DM_REPO="$WT" DMV_EVIDENCE_DIR=/tmp/dmv-scratch-evidence DMV_WORK=/verif/.work-seed /verif/check "$P" > "$OUT/check-$P.out" 2>&1; rc=$?
   grep -E "^VIOLATION|summary|^$P " "$OUT/check-$P.out" | head -6 >> "$LOG"
   verdicts="$verdicts $P=exit$rc"
   rm -rf /verif/replays/$P
